@@ -4,7 +4,7 @@
 From Coq Require Import ZArith Bool String.
 From Coq Require Import List.
 Import ListNotations.
-Require Import MV.C04.Gen MV.C04.Model MV.C04.Geo MV.C04.Stl MV.C04.Ref MV.C04.Proofs.
+Require Import MV.C04.Gen MV.C04.Model MV.C04.Geo MV.C04.Stl MV.C04.Ref MV.C04.Run MV.C04.Proofs.
 Open Scope Z_scope.
 
 Theorem C04_roundtrip_xyz : forall (F Ftxt Cx Ctxt : Type) (pf : F -> Ftxt) (rf : Ftxt -> F) (f_of_int : Z -> F),
@@ -115,3 +115,30 @@ Theorem C04_roundtrip_stl_partial : forall (F Cx F32 : Type) (to32 : F -> option
   exists L, @print_stl F Cx F32 to32 zero32 m = Some L /\ @ref_parse_stl F32 L = Some S.
 Proof. exact stl_roundtrip. Qed.
 Print Assumptions C04_roundtrip_stl_partial.
+
+(* ---- the loaded object has the class its content implies (load() = _instanciate_raw_mesh_data of the imported data;
+   both decision chains are regenerated from mesh.py / mesh_data.py) *)
+Theorem C04_class_implied : forall (F Cx : Type) (r : raw F Cx),
+  class_of_raw r = Some (if negb (isnil (rC r)) then "VolumeMesh" else if negb (isnil (rF r)) then "SurfaceMesh"
+                         else if negb (isnil (rE r)) then "PolyLine" else "PointCloud")%string.
+Proof. exact class_implied. Qed.
+Print Assumptions C04_class_implied.
+
+(* ---- element kinds a format cannot express are absent from what its files give back (never turned into something
+   else): together with the round trips above, parse_f (print_f m) has exactly these containers *)
+Theorem C04_vocabulary : forall (F Cx : Type) (m : mesh F Cx) sw,
+  (rE (vocab_xyz m) = [] /\ rF (vocab_xyz m) = [] /\ rC (vocab_xyz m) = [])
+  /\ (forall r, vocab_obj sw m = Some r -> rC r = [])
+  /\ (rE (vocab_off m) = [] /\ rC (vocab_off m) = [])
+  /\ (rE (vocab_tet m) = [] /\ rF (vocab_tet m) = [])
+  /\ (forall r, vocab_medit m = Some r ->
+        Forall (fun f => zlen f = 3 \/ zlen f = 4) (rF r) /\ Forall (fun c => zlen c = 8 \/ zlen c = 4) (rC r)).
+Proof. exact vocabulary. Qed.
+Print Assumptions C04_vocabulary.
+
+(* ---- REFUTED for the faithful model (known finding geogram_ascii/non-tetrahedral-cells/save-raises): hexahedra, which the
+   geogram format can express, cannot be saved: save raises (volume.py unpacks every cell as 4 vertices) *)
+Theorem C04_geogram_hexahedra_refuted :
+  exists m : zmesh, mC m = [[0; 1; 2; 3; 4; 5; 6; 7]] /\ print_fmt Fgeo default_sw m = None /\ zsave_geo m = None.
+Proof. exact geogram_hexahedra_refuted. Qed.
+Print Assumptions C04_geogram_hexahedra_refuted.
